@@ -35,11 +35,27 @@ func c15Case(c *runner.Ctx, src string, style int, seed uint64) {
 	m := envs.AsMap(e)
 	sample := envs.New(&envs.Log{})
 	sampleMap := envs.AsMap(sample)
-	runEnvs := []struct {
-		name string
-		v    interface{}
-	}{{"struct", *e}, {"pointer", e}, {"map", m}}
+	runEnvs := []c15RunEnv{{"struct", *e}, {"pointer", e}, {"map", m}}
+	typed := []c15Typed{
+		{"Env(struct)", expr.Env(*sample), *e},
+		{"Env(*struct)", expr.Env(sample), e},
+		{"Env(map)", expr.Env(sampleMap), m},
+	}
+	c15Compare(c, src, runEnvs, typed, envBrief(e), fmt.Sprintf("%s|%d|%d", src, style, seed))
+}
 
+type c15RunEnv struct {
+	name string
+	v    interface{}
+}
+
+type c15Typed struct {
+	name string
+	opt  expr.Option
+	run  interface{}
+}
+
+func c15Compare(c *runner.Ctx, src string, runEnvs []c15RunEnv, typed []c15Typed, envDesc, distinctKey string) {
 	var vs []c15Variant
 	add := func(name string, o Outcome) {
 		if o.Panic != nil {
@@ -59,15 +75,6 @@ func c15Case(c *runner.Ctx, src string, style int, seed uint64) {
 			add("Compile()/"+re.name, SafeRun(pU, re.v))
 			c.Eval(1)
 		}
-	}
-	typed := []struct {
-		name string
-		opt  expr.Option
-		run  interface{}
-	}{
-		{"Env(struct)", expr.Env(*sample), *e},
-		{"Env(*struct)", expr.Env(sample), e},
-		{"Env(map)", expr.Env(sampleMap), m},
 	}
 	for _, tv := range typed {
 		for _, allow := range []bool{false, true} {
@@ -108,22 +115,118 @@ func c15Case(c *runner.Ctx, src string, style int, seed uint64) {
 				all[v.name] = v.out.String()
 			}
 			c.Violate("modes-disagree:"+first.name+"|"+vs[i].name, fmt.Sprintf("%s returns %s, %s returns %s", first.name, first.out, vs[i].name, vs[i].out),
-				map[string]interface{}{"source": src, "variants": all, "env": envBrief(e)})
+				map[string]interface{}{"source": src, "variants": all, "env": envDesc})
 			break
 		}
 	}
 	c.Count("variants_succeeded", int64(nOK))
 	if nOK >= 2 {
 		c.Count("cases_with_two_or_more_successes", 1)
-		c.Distinct(fmt.Sprintf("%s|%d|%d", src, style, seed))
+		c.Distinct(distinctKey)
 	}
 	if c.WantSample() {
 		c.Sample(map[string]interface{}{"source": src, "variants_run": len(vs), "variants_succeeded": nOK})
 	}
 }
 
+// environment over defined (named) types: the checker knows their kinds, the
+// untyped modes only see the values
+type C15Str string
+type C15Int int
+type C15Float float64
+type C15Bool bool
+type C15List []int
+type C15Dict map[string]int
+
+type C15Named struct {
+	Col   C15Str
+	ID    C15Int
+	Rt    C15Float
+	Fl    C15Bool
+	L     C15List
+	D     C15Dict
+	IDs   []C15Int
+	Cols  []C15Str
+	ByCol map[C15Str]int
+	A     int
+	S     string
+	X     float64
+	Ints  []int
+	Strs  []string
+	MI    map[string]int
+	AnyC  interface{}
+	AnyN  interface{}
+}
+
+func (e C15Named) asMap() map[string]interface{} {
+	return map[string]interface{}{"Col": e.Col, "ID": e.ID, "Rt": e.Rt, "Fl": e.Fl, "L": e.L, "D": e.D, "IDs": e.IDs, "Cols": e.Cols, "ByCol": e.ByCol,
+		"A": e.A, "S": e.S, "X": e.X, "Ints": e.Ints, "Strs": e.Strs, "MI": e.MI, "AnyC": e.AnyC, "AnyN": e.AnyN}
+}
+
+var c15NamedAtoms = map[string][]string{
+	"str":  {"Col", "S", `"a"`, `"b"`, "AnyC", "Cols[0]"},
+	"int":  {"ID", "A", "1", "2", "3", "AnyN", "IDs[0]", "L[0]"},
+	"num":  {"ID", "A", "Rt", "X", "1", "2.5", "AnyN"},
+	"strs": {`["a", "b"]`, `["b"]`, "Cols", "Strs", `["a", 1]`},
+	"ints": {"[1, 2, 3]", "[2]", "1..3", "2..2", "IDs", "Ints", "L", "[1, 2.0]"},
+	"maps": {"D", "MI", "ByCol", `{"a": 1}`},
+}
+
+func c15NamedSrc(r *runner.Rng) string {
+	pick := func(k string) string { return r.Pick(c15NamedAtoms[k]) }
+	switch r.Intn(12) {
+	case 0:
+		return pick("str") + " " + r.Pick([]string{"in", "not in"}) + " " + pick("strs")
+	case 1:
+		return pick("int") + " " + r.Pick([]string{"in", "not in"}) + " " + pick("ints")
+	case 2:
+		return pick("str") + " " + r.Pick([]string{"in", "not in"}) + " " + pick("maps")
+	case 3:
+		return pick("str") + " " + r.Pick([]string{"==", "!=", "<", "+", "contains", "startsWith", "matches"}) + " " + pick("str")
+	case 4:
+		return pick("num") + " " + r.Pick([]string{"==", "!=", "<", ">=", "+", "-", "*", "/", "**"}) + " " + pick("num")
+	case 5:
+		return pick("int") + " " + r.Pick([]string{"%", "..", "==", "/"}) + " " + pick("int")
+	case 6:
+		return r.Pick([]string{"Fl and true", "not Fl", "Fl or false", "Fl ? 1 : 2", "Fl == true", "!Fl", "-ID", "-Rt", "+ID"})
+	case 7:
+		return r.Pick([]string{"len(L)", "len(Col)", "len(D)", "L[0]", "L[1:]", "D[\"a\"]", "D.a", "ByCol[Col]", "ByCol[\"a\"]", "MI[Col]", "D[Col]", "Ints[ID]", "L[ID]", "Strs[ID]"})
+	case 8:
+		return r.Pick([]string{"map(L, {# + 1})", "filter(IDs, {# > 1})", "count(Cols, {# == \"a\"})", "all(IDs, {# in [1, 2, 3]})", "any(Cols, {# in [\"a\", \"b\"]})", "count(L, {# in 1..2})", "map(IDs, {# == ID})", "filter(Cols, {# == Col})"})
+	case 9:
+		return "(" + c15NamedSrc(r) + ") == (" + c15NamedSrc(r) + ")"
+	case 10:
+		return "(" + pick("int") + " in " + pick("ints") + ") ? " + pick("str") + " : " + pick("str")
+	default:
+		return "[" + pick("int") + ", " + pick("str") + ", " + pick("num") + "]"
+	}
+}
+
+// c15RetypeSrc: a call whose argument is integer arithmetic (the checker
+// retypes its literals to the parameter's kind) with dynamic operands at
+// varying depth.
+func c15RetypeSrc(r *runner.Rng) string {
+	var tree func(d int) string
+	tree = func(d int) string {
+		if d <= 0 || r.Chance(1, 4) {
+			return r.Pick([]string{"1", "2", "3", "7", "AnyF", "AnyI", "AnyF", "A", "I64", "7 / 2", "1 / 2", "5 % 3", "U8"})
+		}
+		switch r.Intn(6) {
+		case 0:
+			return "-" + "(" + tree(d-1) + ")"
+		case 1:
+			return "(" + tree(d-1) + ")"
+		default:
+			return "(" + tree(d-1) + ") " + r.Pick([]string{"+", "-", "*", "/"}) + " " + tree(d-1)
+		}
+	}
+	fn := r.Pick([]string{"FnF", "Half", "FnF32", "FnAny", "FnI64", "FnU8", "FnI", "It.Plus", "Inc"})
+	return fn + "(" + tree(1+r.Intn(3)) + ")"
+}
+
 func init() {
 	corpus := []string{
+		"Half((AnyF + 1) * (7 / 2))", "FnF(-(AnyF + 1) + 7 / 2)", "FnF((AnyI + 1) * 7 / 2)", "FnF32((AnyF - 1) / (1 / 2 + 1))",
 		"A == 1", "S == \"a\"", "A == I64", "AnyI == A", "AnyI == 1", "AnyS == S", "A == AnyI", "I8 == 1", "X == 1", "1 == X",
 		"FnF(X + 7 / 2)", "FnF(AnyI + 7 / 2)", "FnF(AnyF + 7 / 2)", "FnF(AnyF * 3 / 2)", "Half(AnyF - 1 / 2)", "FnAny(AnyI + 7 / 2)", "FnI(AnyI + 1)", "FnF(1)", "FnU8(255)", "Half(3)", "FnI64(7 / 2)", "Fast(1, 2.5, \"a\")",
 		"Inc(A)", "Cat(S, T)", "It.Double()", "PIt.Label()", "NilIt?.Name", "It.Next?.Next?.ID", "MA[\"a\"]", "MA.a", "MI[\"zz\"]", "len(Anys)",
@@ -168,8 +271,47 @@ func init() {
 					c15Case(c, src, styles[i], seeds[i])
 				}
 			}},
+			{Name: "named-types", N: func(tier string) uint64 {
+				if tier == "thorough" {
+					return 200000
+				}
+				return 6000
+			}, Run: func(c *runner.Ctx, idx uint64) {
+				r := c.R
+				src := c15NamedSrc(r)
+				c.Begin(src)
+				k := r.Intn(4)
+				e := C15Named{Col: C15Str(r.Pick([]string{"a", "b", "c", ""})), ID: C15Int(k), Rt: C15Float(float64(k) + []float64{0, 0.5}[r.Intn(2)]), Fl: C15Bool(r.Bool()),
+					L: C15List{1, 2, 3}[:1+r.Intn(3)], D: C15Dict{"a": 1, "b": 2}, IDs: []C15Int{1, 2, 3}[:1+r.Intn(3)], Cols: []C15Str{"a", "b"}[:1+r.Intn(2)],
+					ByCol: map[C15Str]int{"a": 1, "c": 3}, A: r.Intn(4), S: r.Pick([]string{"a", "b", "c"}), X: float64(r.Intn(4)) + []float64{0, 0.5}[r.Intn(2)],
+					Ints: []int{1, 2, 3}, Strs: []string{"a", "b"}, MI: map[string]int{"a": 1}}
+				e.AnyC = []interface{}{C15Str("a"), "a", C15Str("z"), 1}[r.Intn(4)]
+				e.AnyN = []interface{}{C15Int(2), 2, 2.0, C15Float(2), "a"}[r.Intn(5)]
+				m := e.asMap()
+				sample := C15Named{}
+				runEnvs := []c15RunEnv{{"struct", e}, {"pointer", &e}, {"map", m}}
+				typed := []c15Typed{{"Env(struct)", expr.Env(sample), e}, {"Env(*struct)", expr.Env(&sample), &e}, {"Env(map)", expr.Env(sample.asMap()), m}}
+				c.Count("named_cases", 1)
+				c15Compare(c, src, runEnvs, typed, fmt.Sprintf("%+v", e), fmt.Sprintf("named|%s|%+v", src, e))
+			}},
+			{Name: "retyped-arguments", N: func(tier string) uint64 {
+				if tier == "thorough" {
+					return 120000
+				}
+				return 4000
+			}, Run: func(c *runner.Ctx, idx uint64) {
+				src := c15RetypeSrc(c.R)
+				c.Count("retype_cases", 1)
+				styles, seeds := EnvStyles(c.R, 3)
+				for i := range styles {
+					c15Case(c, src, styles[i], seeds[i]/3*3) // fractional AnyF, small AnyI
+				}
+			}},
 		},
 		Post: func(a *runner.Aggregate) []string {
+			if a.Counters["named_cases"] == 0 || a.Counters["retype_cases"] == 0 {
+				return []string{"named-type or retyped-argument cases did not run"}
+			}
 			if a.Counters["cases_with_two_or_more_successes"] == 0 {
 				return []string{"no case had two succeeding modes to compare"}
 			}
